@@ -7,7 +7,7 @@ From Refinery Require Import Gen.GenC16.
 Record case := {
   c_seed : N;                      (* hashSeed used by the harness for the oracle column *)
   c_rate : N;                      (* StressRelief.SamplingRate at the start *)
-  c_rate_changes : list (nat * N); (* (i, r): before op number i of c_ops a reload set SamplingRate := r (UpdateFromConfig) *)
+  c_rate_changes : list (nat * N); (* (i, r): before op number i of c_ops a reload set SamplingRate := r (UpdateFromConfig); several reloads may precede one op, the LAST one is in force *)
   c_tinfo : list (N * (N * N));    (* trace -> (owner: 0 = A, 1 = B ; wyhash(traceID, hashSeed) as returned by the real function) *)
   c_ops : list op;                 (* the schedule, ending with FlushUp; FlushPeer *)
   c_events : list out;             (* Dropped / Buffered outcomes observed on node A, in op order *)
@@ -29,7 +29,7 @@ Section WithCase.
     if N.leb rate 1 then true else N.leb (m_hash tid) (max_u64 / rate).
   (* the rate IN FORCE when each trace was first decided under stress (the decision is remembered afterwards) *)
   Fixpoint first_rates (i : nat) (st : bool) (rate : N) (ops : list op) (acc : amap N) : amap N :=
-    let rate' := match find (fun ch => Nat.eqb (fst ch) i) (c_rate_changes c) with Some ch => snd ch | None => rate end in
+    let rate' := match find (fun ch => Nat.eqb (fst ch) i) (rev (c_rate_changes c)) with Some ch => snd ch | None => rate end in
     match ops with
     | [] => acc
     | Arr _ tid _ _ :: r =>
